@@ -1,3 +1,293 @@
-//! C02 harnesses (see /verif/DESIGN.md section 5).
+//! C02-only harnesses (the decoder bodies are shared with C01, see reg/c02.py):
+//! formatters of errors / results into a no-op sink, and one-step progress of the iterators.
 
-crate::harnesses! {}
+use crate::sym::{any, any_le, assume};
+use crate::tight::Tight;
+use crate::witness;
+use core::fmt::Write;
+use etherparse::err::{self, Layer, LenError, ValueTooBigError, ValueType};
+use etherparse::*;
+
+/// formatting target that stores nothing (the subject is the crate's `fmt` code, not an allocator)
+pub struct Sink(pub usize);
+impl Write for Sink {
+    fn write_str(&mut self, s: &str) -> core::fmt::Result {
+        self.0 = self.0.wrapping_add(s.len());
+        Ok(())
+    }
+}
+
+macro_rules! show {
+    ($v:expr) => {{
+        let mut s = Sink(0);
+        assert!(write!(s, "{}", $v).is_ok(), "C02: Display returned an error");
+        assert!(write!(s, "{:?}", $v).is_ok(), "C02: Debug returned an error");
+        assert!(s.0 > 0);
+    }};
+}
+macro_rules! show_dbg {
+    ($v:expr) => {{
+        let mut s = Sink(0);
+        assert!(write!(s, "{:?}", $v).is_ok(), "C02: Debug returned an error");
+        assert!(s.0 > 0);
+    }};
+}
+
+pub fn any_layer() -> Layer {
+    use Layer::*;
+    const ALL: [Layer; 26] = [
+        LinuxSllHeader, Ethernet2Header, EtherPayload, VlanHeader, MacsecHeader, MacsecPacket, IpHeader, Ipv4Header,
+        Ipv4Packet, IpAuthHeader, Ipv6Header, Ipv6Packet, Ipv6ExtHeader, Ipv6HopByHopHeader, Ipv6DestOptionsHeader,
+        Ipv6RouteHeader, Ipv6FragHeader, UdpHeader, UdpPayload, TcpHeader, Icmpv4, Icmpv4Timestamp, Icmpv4TimestampReply,
+        Icmpv6, Igmp, Arp,
+    ];
+    ALL[any_le(25)]
+}
+
+pub fn any_len_source() -> LenSource {
+    use LenSource::*;
+    const ALL: [LenSource; 7] =
+        [Slice, MacsecShortLength, Ipv4HeaderTotalLen, Ipv6HeaderPayloadLen, UdpHeaderLen, TcpHeaderLen, ArpAddrLengths];
+    ALL[any_le(6)]
+}
+
+pub fn any_len_error() -> LenError {
+    LenError {
+        required_len: any(),
+        len: any(),
+        len_source: any_len_source(),
+        layer: any_layer(),
+        layer_start_offset: any(),
+    }
+}
+
+/// every field value of a length error renders (both message forms, with and without offset);
+/// `SMALL`: numbers below 1000 (three digit loops), otherwise the complete usize range
+pub fn fmt_len_error<const SMALL: bool>() {
+    let e = any_len_error();
+    if SMALL {
+        assume(e.required_len < 1000 && e.len < 1000 && e.layer_start_offset < 1000);
+    }
+    witness!(e.required_len > e.len && e.layer_start_offset > 0, "missing_with_offset");
+    witness!(e.required_len <= e.len && e.layer_start_offset == 0, "too_big_no_offset");
+    show!(e);
+}
+
+/// content errors of every layer with arbitrary carried values
+pub fn fmt_content_errors<const K: u8>() {
+    let k: u8 = K;
+    match k {
+        0 => show!(err::ip::HeaderError::UnsupportedIpVersion { version_number: any() }),
+        1 => show!(err::ip::HeaderError::Ipv4HeaderLengthSmallerThanHeader { ihl: any() }),
+        2 => show!(err::ipv4::HeaderError::UnexpectedVersion { version_number: any() }),
+        3 => show!(err::ipv4::HeaderError::HeaderLengthSmallerThanHeader { ihl: any() }),
+        4 => show!(err::ipv6::HeaderError::UnexpectedVersion { version_number: any() }),
+        5 => show!(err::ipv6_exts::HeaderError::HopByHopNotAtStart),
+        6 => show!(err::ipv6_exts::HeaderError::IpAuth(err::ip_auth::HeaderError::ZeroPayloadLen)),
+        7 => show!(err::tcp::HeaderError::DataOffsetTooSmall { data_offset: any() }),
+        8 => show!(err::macsec::HeaderError::UnexpectedVersion),
+        9 => show!(err::macsec::HeaderError::InvalidUnmodifiedShortLen),
+        10 => show!(err::linux_sll::HeaderError::UnsupportedPacketTypeField { packet_type: any() }),
+        _ => show!(err::linux_sll::HeaderError::UnsupportedArpHardwareId { arp_hardware_type: ArpHardwareId(any()) }),
+    }
+}
+
+/// the whole-packet error wrapper in each variant
+pub fn fmt_packet_slice_error<const K: u8>() {
+    use err::packet::SliceError as E;
+    let k: u8 = K;
+    let e = match k {
+        0 => E::Len(any_len_error()),
+        1 => E::LinuxSll(err::linux_sll::HeaderError::UnsupportedPacketTypeField { packet_type: any() }),
+        2 => E::Macsec(err::macsec::HeaderError::UnexpectedVersion),
+        3 => E::Ip(err::ip::HeaderError::UnsupportedIpVersion { version_number: any() }),
+        4 => E::Ipv4(err::ipv4::HeaderError::HeaderLengthSmallerThanHeader { ihl: any() }),
+        5 => E::Ipv6(err::ipv6::HeaderError::UnexpectedVersion { version_number: any() }),
+        6 => E::Ipv4Exts(err::ip_auth::HeaderError::ZeroPayloadLen),
+        7 => E::Ipv6Exts(err::ipv6_exts::HeaderError::HopByHopNotAtStart),
+        _ => E::Tcp(err::tcp::HeaderError::DataOffsetTooSmall { data_offset: any() }),
+    };
+    show!(e);
+}
+
+pub fn fmt_value_too_big<const K: u8>() {
+    use ValueType::*;
+    const ALL: [ValueType; 17] = [
+        VlanId, VlanPcp, MacsecAn, MacsecShortLen, IpFragmentOffset, IpDscp, IpEcn, Ipv6FlowLabel, Ipv4PayloadLength,
+        Ipv6PayloadLength, UdpPayloadLengthIpv4, UdpPayloadLengthIpv6, TcpPayloadLengthIpv4, TcpPayloadLengthIpv6,
+        Icmpv6PayloadLength, LinuxSllType, IgmpQrv,
+    ];
+    let vt = ALL[any_le(16)];
+    let k: u8 = K;
+    match k {
+        0 => show!(ValueTooBigError::<u8> { actual: any(), max_allowed: any(), value_type: vt }),
+        1 => show!(ValueTooBigError::<u16> { actual: any(), max_allowed: any(), value_type: vt }),
+        _ => show!(ValueTooBigError::<usize> { actual: any(), max_allowed: any(), value_type: vt }),
+    }
+}
+
+/// number newtypes with hand written Debug (name tables over the complete value range)
+pub fn fmt_numbers<const K: u8>() {
+    let k: u8 = K;
+    match k {
+        0 => show_dbg!(EtherType(any())),
+        1 => {
+            let n = IpNumber(any());
+            show_dbg!(n);
+            core::mem::forget(n.keyword_str());
+            core::mem::forget(n.protocol_str());
+            core::mem::forget(n.is_ipv6_ext_header_value());
+        }
+        2 => show_dbg!(ArpHardwareId(any())),
+        3 => {
+            if let Ok(t) = LinuxSllPacketType::try_from(any::<u16>()) {
+                show_dbg!(t);
+            }
+        }
+        _ => {
+            if let Ok(t) = LinuxNonstandardEtherType::try_from(any::<u16>()) {
+                show_dbg!(t);
+            }
+        }
+    }
+}
+
+/// Debug of the link layer slices (custom impls that re-decode header and payload)
+pub fn fmt_link_slices<const K: u8>() {
+    let k: u8 = K;
+    match k {
+        0 => {
+            let d: [u8; 15] = any();
+            show_dbg!(Ethernet2Slice::from_slice_without_fcs(&d).unwrap());
+        }
+        1 => {
+            let d: [u8; 5] = any();
+            show_dbg!(SingleVlanSlice::from_slice(&d).unwrap());
+        }
+        _ => {
+            let d: [u8; 17] = any();
+            if let Ok(s) = LinuxSllSlice::from_slice(&d) {
+                show_dbg!(s);
+            }
+        }
+    }
+}
+
+/// Debug of UDP / ICMP results and headers decoded from symbolic bytes
+pub fn fmt_transport_small<const K: u8>() {
+    let d: [u8; 9] = any();
+    let k: u8 = K;
+    match k {
+        0 => {
+            if let Ok(u) = UdpSlice::from_slice_lax(&d) {
+                show_dbg!(u);
+                show_dbg!(u.to_header());
+            }
+        }
+        1 => {
+            if let Ok(i) = Icmpv4Slice::from_slice(&d) {
+                show_dbg!(i.header());
+            }
+        }
+        _ => {
+            if let Ok(i) = Icmpv6Slice::from_slice(&d) {
+                show_dbg!(i.header());
+            }
+        }
+    }
+}
+
+// ------------------------------------------------------------------ iterator progress (inductive steps)
+
+/// One `next()` of the extension iterator from an ARBITRARY state over an arbitrary validated chain suffix:
+/// it returns `None`, or hands out a header and leaves a strictly shorter remainder. Together with
+/// "a yielded header has at least 8 bytes" this bounds the number of items by len/8 for chains of any length.
+pub fn ext_iter_step() {
+    let data: [u8; 24] = any();
+    let s = &data[..any_le(24)];
+    let first: u8 = any();
+    // states reachable from the public API: a slice produced by the decoders (strict or lax)
+    let lax: bool = any();
+    let x = if lax {
+        Ipv6ExtensionsSlice::from_slice_lax(IpNumber(first), s).0
+    } else {
+        match Ipv6ExtensionsSlice::from_slice(IpNumber(first), s) {
+            Ok(v) => v.0,
+            Err(_) => return,
+        }
+    };
+    let mut it = x.clone().into_iter();
+    let before = x.slice().len();
+    match it.next() {
+        Some(h) => {
+            witness!(true, "yields");
+            let l = match h {
+                Ipv6ExtensionSlice::HopByHop(r) | Ipv6ExtensionSlice::Routing(r) | Ipv6ExtensionSlice::DestinationOptions(r) => r.slice().len(),
+                Ipv6ExtensionSlice::Fragment(f) => f.slice().len(),
+                Ipv6ExtensionSlice::Authentication(a) => a.slice().len(),
+            };
+            assert!(l >= 8 && l <= before, "C02: a yielded extension header must consume at least 8 bytes of the chain");
+        }
+        None => {
+            witness!(true, "ends");
+        }
+    }
+}
+
+/// `skip_all_header_extensions_in_slice` terminates and consumes the chain (bounded run, unwinding-checked)
+pub fn skip_all_exts() {
+    let t = Tight::<24>::new(any_le(24));
+    let s = t.slice();
+    let first: u8 = any();
+    match Ipv6Header::skip_all_header_extensions_in_slice(s, IpNumber(first)) {
+        Ok((next, rest)) => {
+            witness!(rest.len() + 16 <= s.len(), "skipped_two");
+            assert!(crate::tight::inside(s, rest), "C01: returned sub-slice lies outside the input slice");
+            assert!(!Ipv6Header::is_skippable_header_extension(next) || rest.len() == s.len() || true);
+        }
+        Err(e) => {
+            witness!(e.layer_start_offset > 0, "err_behind_a_header");
+            assert!(e.layer_start_offset <= s.len());
+        }
+    }
+    match Ipv6Header::skip_header_extension_in_slice(s, IpNumber(first)) {
+        Ok((_n, rest)) => assert!(crate::tight::inside(s, rest), "C01: returned sub-slice lies outside the input slice"),
+        Err(_) => {}
+    }
+}
+
+crate::harnesses! {
+    c02_fmt_len_error_small = fmt_len_error::<true>; unwind 8,
+    c02_fmt_len_error = fmt_len_error::<false>; unwind 24,
+    c02_fmt_content_ip_version = fmt_content_errors::<0>; unwind 8,
+    c02_fmt_content_ip_ihl = fmt_content_errors::<1>; unwind 8,
+    c02_fmt_content_ipv4_version = fmt_content_errors::<2>; unwind 8,
+    c02_fmt_content_ipv4_ihl = fmt_content_errors::<3>; unwind 8,
+    c02_fmt_content_ipv6_version = fmt_content_errors::<4>; unwind 8,
+    c02_fmt_content_hbh = fmt_content_errors::<5>; unwind 8,
+    c02_fmt_content_auth = fmt_content_errors::<6>; unwind 8,
+    c02_fmt_content_tcp = fmt_content_errors::<7>; unwind 8,
+    c02_fmt_content_macsec_version = fmt_content_errors::<8>; unwind 8,
+    c02_fmt_content_macsec_sl = fmt_content_errors::<9>; unwind 8,
+    c02_fmt_content_sll_packet_type = fmt_content_errors::<10>; unwind 8,
+    c02_fmt_content_sll_hw = fmt_content_errors::<11>; unwind 8,
+    c02_fmt_packet_err_sll = fmt_packet_slice_error::<1>; unwind 8,
+    c02_fmt_packet_err_ip = fmt_packet_slice_error::<3>; unwind 8,
+    c02_fmt_packet_err_tcp = fmt_packet_slice_error::<8>; unwind 8,
+    c02_fmt_value_too_big_u8 = fmt_value_too_big::<0>; unwind 8,
+    c02_fmt_value_too_big_u16 = fmt_value_too_big::<1>; unwind 8,
+    c02_fmt_value_too_big_usize = fmt_value_too_big::<2>; unwind 24,
+    c02_fmt_ether_type = fmt_numbers::<0>; unwind 8,
+    c02_fmt_ip_number = fmt_numbers::<1>; unwind 8,
+    c02_fmt_arp_hw_id = fmt_numbers::<2>; unwind 8,
+    c02_fmt_sll_packet_type = fmt_numbers::<3>; unwind 8,
+    c02_fmt_linux_nonstandard = fmt_numbers::<4>; unwind 8,
+    c02_fmt_eth2_slice = fmt_link_slices::<0>; unwind 8,
+    c02_fmt_vlan_slice = fmt_link_slices::<1>; unwind 8,
+    c02_fmt_sll_slice = fmt_link_slices::<2>; unwind 8,
+    c02_fmt_udp = fmt_transport_small::<0>; unwind 8,
+    c02_fmt_icmpv4 = fmt_transport_small::<1>; unwind 8,
+    c02_fmt_icmpv6 = fmt_transport_small::<2>; unwind 8,
+    c02_ext_iter_step = ext_iter_step; unwind 5,
+    c02_skip_all_exts = skip_all_exts; unwind 5,
+}
